@@ -202,3 +202,29 @@ pub fn set_shape(on: bool) {
 pub fn log_overflowed() -> bool {
     TL.with(|t| t.overflow.replace(false))
 }
+
+// ---- additions of the box family: recording only around crate calls inside one operation ----
+/// start of an operation: empties the event log
+pub fn reset_log() {
+    TL.with(|t| {
+        t.n.set(0);
+        t.refused_in_call.set(0);
+    });
+}
+/// Run one crate call with recording on (events accumulate until the next `reset_log`).
+pub fn with_rec<R>(f: impl FnOnce() -> R) -> R {
+    struct Off;
+    impl Drop for Off {
+        fn drop(&mut self) {
+            recording_off();
+        }
+    }
+    recording_on();
+    let off = Off;
+    let r = f();
+    drop(off);
+    r
+}
+pub fn n_events() -> usize {
+    TL.with(|t| t.n.get())
+}
